@@ -303,6 +303,8 @@ def mon_C05(st):
                                     f"pool {pi} {r.name}: {held} tasks running, num_concurrent={r.nc}, {n - created - skipped} elements left"))
             if qj is not None and r.step <= qj and settled(ps, r, st) and not ps.has_hooks:
                 skipped = sum(1 for c in r.items if c == "1")
+                if "2" in r.items:          # the iterator raises there: the consumer ends, nothing after it is owed
+                    continue
                 if len(ks) != n or len(r.tids) + skipped != n:
                     out.append(("elements-lost", qj, f"pool {pi} {r.name}: pulled {len(ks)}, {len(r.tids)} tasks + {skipped} skipped of {n}"))
     return out
@@ -865,6 +867,13 @@ def mon_C12(st, loopexc=None):
                 pi = int(detail.split()[1].rstrip(":"))
                 if pi < len(st.pools) and raising_anywhere(st, st.pools[pi]):
                     out.append(("slot-of-failed-task-lost", j, detail))
+    # pending requests proceed as if the failing task or callback had succeeded: nothing they asked for goes missing
+    if not trigger_holds("unlock_while_closing", st):
+        for (kind, j, detail) in mon_C05(st) + mon_C04(st):
+            if kind in ("elements-lost", "invocations-lost"):
+                pi = int(detail.split()[1].rstrip(":"))
+                if pi < len(st.pools) and raising_anywhere(st, st.pools[pi]):
+                    out.append(("request-starved-after-a-failure", j, detail))
     for name in (loopexc or []):
         if name not in ("Boom",):
             out.append(("foreign-exception-in-a-pool-task", len(st.toks) - 1, name))
